@@ -84,7 +84,8 @@ def aggregator_stage(ctx):
 
 
 def _job(args):
-    items, seed = args
+    items, seed = args[:2]
+    deep = len(args) > 2 and args[2]
     import logging
     logging.disable(logging.CRITICAL)
     from vf import images, insp
@@ -116,6 +117,9 @@ def _job(args):
             if n <= 40000:
                 q, r = divmod(n, 17)
                 scheds.append([17] * q + ([r] if r else []))
+            if deep:
+                have = {tuple(x) for x in scheds}
+                scheds += [x for x in ri.schedules(n, bounds, rnd, True) if tuple(x) not in have]
         raised_ref = (ref['safety'] == 'rejected' and not ref['match'] and not ref['complete']
                       and ref['size']['k'] == 'zero')
         want = (ref['safety'], sorted(ref['fails']))
@@ -137,7 +141,7 @@ def traits_stage(ctx, records):
     rnd = random.Random(ctx.seed)
     caps = {'*': 100000}
     chosen = ri.select(records, caps, rnd)
-    jobs = [(chosen[i:i + 40], ctx.seed) for i in range(0, len(chosen), 40)]
+    jobs = [(chosen[i:i + 40], ctx.seed, not quick) for i in range(0, len(chosen), 40)]
     byidx = dict(chosen)
     runs = 0
     classes = {}
